@@ -52,4 +52,8 @@ def ioapi_wf(f, need_levels=True):
         return 'SDATE/STIME=(%r, %r) but TFLAG[0,0]=(%r, %r)' % (f.SDATE, f.STIME, int(tf[0, 0, 0]), int(tf[0, 0, 1]))
     if not f.dimensions['TSTEP'].isunlimited():
         return 'TSTEP dimension is not unlimited'
+    tfa = np.asarray(tf[...])
+    if tfa.ndim == 3 and tfa.shape[1] > 1 and not (tfa == tfa[:, :1, :]).all():
+        v = int(np.argwhere((tfa != tfa[:, :1, :]).any(axis=(0, 2)))[0][0])
+        return 'time flags differ between variable columns: column %d is %r, column 0 is %r' % (v, tfa[:2, v].tolist(), tfa[:2, 0].tolist())
     return None
